@@ -605,6 +605,13 @@ macro_rules! qualname {
             local: local_name!($local),
         }
     };
+    ("" $ns:tt $local:tt) => {
+        QualName {
+            prefix: None,
+            ns: ns!($ns),
+            local: local_name!($local),
+        }
+    };
     ($prefix: tt $ns:tt $local:tt) => {
         QualName {
             prefix: Some(namespace_prefix!($prefix)),
